@@ -413,8 +413,15 @@ pub fn execute(sc: &Scn, choices: &[usize]) -> Exec {
         (None, _) => ex.violations.push(("no-result".into(), format!("{desc}: send() did not return"))),
         (Some(Err(e)), _) if e.starts_with("panic") => ex.violations.push(("panic".into(), format!("{desc}: {e}"))),
         (Some(r), Dl::Expired) => {
-            if r.is_ok() && multi {
+            if r.is_ok() && !sc.addrs.is_empty() {
                 ex.violations.push(("expired-deadline-ignored".into(), format!("{desc}: the deadline had passed before the race began but send() = {r:?}")));
+            }
+            // the error is that of an attempt (every attempt reports the deadline, or at worst what
+            // its address answered), not an invented one
+            if let Err(e) = r {
+                if !sc.addrs.is_empty() && !e.contains("TimedOut") && !e.contains("ConnectionRefused") {
+                    ex.violations.push(("error-kind".into(), format!("{desc}: the deadline had passed before the race began; every attempt ends with a timeout, but send() = Err({e})")));
+                }
             }
         }
         (Some(Ok(body)), _) => {
@@ -576,13 +583,13 @@ fn scenarios(tier: Tier) -> Vec<Scn> {
 
 /// A loopback address on which connection attempts hang: a listener with backlog 0 that already
 /// holds one pending connection.
-struct BlackHole {
-    addr: SocketAddr,
+pub struct BlackHole {
+    pub addr: SocketAddr,
     _fd: std::os::fd::OwnedFd,
     _filler: Vec<std::net::TcpStream>,
 }
 
-fn black_hole(v6: bool) -> Option<BlackHole> {
+pub fn black_hole(v6: bool) -> Option<BlackHole> {
     use std::os::fd::{AsRawFd, FromRawFd, OwnedFd};
     unsafe {
         let fam = if v6 { libc::AF_INET6 } else { libc::AF_INET };
